@@ -438,14 +438,27 @@ theorem coordFromWkt_eq (toks : CoordT) (order : String) :
     simp only [coordFromToks, List.take_nil, rdAll, h0]
     cases ha : io.rd a <;> cases hb : io.rd b <;> simp [Src.Wkt.coordOfStrs, Src.Wkt.dictGet, ha, hb, h0]
   | a :: b :: c :: rest =>
-    have hlen : ¬ ((((a :: b :: c :: rest).length : Nat) : Int) < 2) := by simp; omega
-    have hlen2 : ((((a :: b :: c :: rest).length : Nat) : Int) > 2) := by simp; omega
-    simp only [hlen, hlen2, decide_false, decide_true, Bool.false_eq_true, if_false, if_true]
-    simp only [List.drop_succ_cons, List.drop_zero, List.take_succ_cons, List.take_zero, dictFloat_eq, coordFromToks]
+    -- the number of parts is some `L ≥ 3`: every spelling of the two length tests is decided by these facts
+    simp only [List.drop_succ_cons, List.drop_zero, List.take_succ_cons, List.take_zero]
+    generalize hL : (((a :: b :: c :: rest).length : Nat) : Int) = L
+    have hL3 : 3 ≤ L := by rw [← hL]; simp only [List.length_cons]; omega
+    have f1 : ¬ L < 2 := by omega
+    have f2 : ¬ L ≤ 2 := by omega
+    have f3 : 2 < L := by omega
+    have f4 : 2 ≤ L := by omega
+    have f5 : ¬ L = 2 := by omega
+    have f6 : ¬ 2 = L := by omega
+    simp only [dictFloat_eq, coordFromToks]
     cases hr : rdAll io ((c :: rest).take order.toLower.toList.length) with
-    | none => simp
+    | none => simp [f1, f2, f3, f4, f5, f6]
     | some ex =>
-      cases ha : io.rd a <;> cases hb : io.rd b <;> simp [zmAssign_eq, Src.Wkt.coordOfStrs, ha, hb]
+      cases ha : io.rd a <;> cases hb : io.rd b <;>
+        simp [zmAssign_eq, Src.Wkt.coordOfStrs, ha, hb, f1, f2, f3, f4, f5, f6]
+
+/-- the same as an equation between functions (the element function of the comprehension in `_parse_wkt_linear_ring`) -/
+theorem coordFromWkt_fun (order : String) :
+    (fun toks => Src.Wkt.coordFromWkt io () toks order) = coordFromToks io order.toLower.toList := by
+  funext toks; exact coordFromWkt_eq io toks order
 
 /-! ### `_parse_wkt_linear_ring` -/
 
@@ -468,39 +481,8 @@ theorem zm_lower : "ZM".toLower.toList = ['z', 'm'] := by
 theorem toLower_ofList (t : List Char) : (String.ofList t).toLower.toList = t.map Char.toLower := by
   simp [String.toLower, String.toList_map]
 
-/-- the closing checks of `_parse_wkt_linear_ring` -/
-theorem closing_eq (cs : List (Coord F)) (n : Nat) (closed : Bool) :
-    (if decide ((cs.length : Int) < (n : Int)) then (Except.error "ERR:Value" : Except String (List (Coord F)))
-     else if closed then
-       match GV.Py.getIdx cs 0 with
-       | .error e => .error e
-       | .ok a =>
-         match GV.Py.getLast cs with
-         | .error e => .error e
-         | .ok b => if !(Src.Wkt.coordEq io a b) then .error "ERR:Value" else .ok cs
-     else .ok cs)
-    = (if cs.length < n then .error "ERR:Value"
-       else if closed then
-         match cs.head?, cs.getLast? with
-         | some a, some b => if Coord.eqv io a b then .ok cs else .error "ERR:Value"
-         | _, _ => .error "ERR:Index"
-       else .ok cs) := by
-  have hn : decide ((cs.length : Int) < (n : Int)) = decide (cs.length < n) := by
-    simp
-  rw [hn]
-  by_cases hlt : cs.length < n
-  · simp [hlt]
-  · simp only [hlt, decide_false, Bool.false_eq_true, if_false]
-    cases closed with
-    | false => rfl
-    | true =>
-      cases cs with
-      | nil => rfl
-      | cons a t =>
-        simp only [GV.Py.getIdx, GV.Py.getLast, List.head?_cons, coordEq_eq, if_true]
-        cases hl : (a :: t).getLast? with
-        | none => simp at hl
-        | some b => cases h : Coord.eqv io a b <;> simp [h]
+/-- `len(tag) + 2` for `2 + len(tag)` -/
+theorem len_add_two {α : Type} (l : List α) : l.length + 2 = 2 + l.length := Nat.add_comm _ _
 
 /-- **`_parse_wkt_linear_ring(wkt_str, wkt_coords, min_points, closed)`**: the agreement of tag and dimensions, the
     conversion of every coordinate (first exception wins), the minimum number of points and the ring closure are the
@@ -512,17 +494,28 @@ theorem parseLinearRing_eq (w : Wkt) (ring : List CoordT) (n : Nat) (closed : Bo
   unfold Src.Wkt.parseLinearRing parseRing Body.dims Src.Wkt.tagList
   cases hfc : w.body.firstCoord <;> cases ht : w.tag
   all_goals simp only [mapE_eq, List.isEmpty_nil, List.isEmpty_cons, if_true, Bool.not_true, Bool.not_false,
-    Bool.false_eq_true, if_false, Bool.false_and, Bool.false_or, Bool.true_and, GV.Py.getIdx, coordFromWkt_eq,
+    Bool.false_eq_true, if_false, Bool.false_and, Bool.false_or, Bool.true_and, GV.Py.getIdx, coordFromWkt_fun,
     toLower_ofList, zm_lower, String.length_ofList]
   all_goals
     (try rw [h2])
-    simp only [bne_cast, bne_cast_add, ite_or_split, zmOrder, List.isEmpty_nil, List.isEmpty_cons, if_true, if_false,
-      Bool.false_eq_true]
+    simp only [bne_cast, bne_cast_add, len_add_two, ite_or_split, zmOrder, List.isEmpty_nil, List.isEmpty_cons, if_true,
+      if_false, Bool.false_eq_true]
     split
     · rfl
     · split
-      · rename_i heq; rw [heq]
-      · rename_i heq; rw [heq]; exact closing_eq io _ n closed
+      · rename_i heq; try rw [heq]
+      · rename_i cs heq
+        try rw [heq]
+        -- the closing checks, by cases on what the model tests
+        by_cases hlt : cs.length < n <;> cases closed <;> rcases cs with _ | ⟨a, t⟩
+        all_goals try (simp [GV.Py.getIdx, GV.Py.getLast, coordEq_eq, hlt]; done)
+        all_goals
+          have hlti : ((t.length : Int) + 1 < (n : Int)) ↔ ((a :: t).length < n) := by
+            simp only [List.length_cons]; omega
+          cases hl : (a :: t).getLast? with
+          | none => simp at hl
+          | some b =>
+            cases he : Coord.eqv io a b <;> simp [GV.Py.getIdx, GV.Py.getLast, coordEq_eq, hlti, hlt, hl, he]
 
 /-- with `min_points` and `closed` left at their defaults (`GeoPoint`, `MultiGeoPoint`) -/
 theorem parseLinearRingDefault_eq (w : Wkt) (ring : List CoordT) :
